@@ -340,6 +340,22 @@ func ruleInstallAfterDurable(p *Prog, r *Report, rule string) {
 		ordPrecede(p, r, fn, "manifest-before-install", nil, manWrite, "newManifest/flushManifest", evCall(fSetVer), "setVersion")
 		ordNotOnError(p, r, fn, "no-install-on-error", mCellNamed("err"), "the manifest write", nil, evCall(fSetVer), "setVersion")
 		ordOnSuccess(p, r, fn, "installed-on-success", nil, evCall(fSetVer), "setVersion")
+		// one edit, one version: what is logged is what is installed
+		spawned := mOriginAll(func(v ssa.Value) bool { _, ok := callValue(v, "(*leveldb.version).spawn"); return ok })
+		current := mOriginAll(func(v ssa.Value) bool { _, ok := callValue(v, "(*leveldb.session).version"); return ok })
+		checkCallArg(p, r, fn, "spawns-from-the-edit", "(*leveldb.version).spawn", 1, mParam("r"), "the edit r")
+		checkCallArg(p, r, fn, "logs-the-edit", fFlushMan, 1, mParam("r"), "the edit r")
+		checkCallArg(p, r, fn, "installs-the-edit", fSetVer, 1, mParam("r"), "the edit r")
+		checkCallArg(p, r, fn, "installs-the-spawned-version", fSetVer, 2, spawned, "the version spawned from r")
+		for _, c := range findCalls(fn, fNewMan) {
+			cc := callCommon(c)
+			r.Site(1)
+			if isNilConst(cc.Args[1]) {
+				r.Check(current(cc.Args[2]), fnName(fn), "snapshot-manifest-of-current@"+branchLabel(c), "a manifest written without an edit snapshots the CURRENT version", "newManifest(nil, x) with x not the current version: the snapshot would already contain an edit that is appended again / not yet durable", p.Pos(c.Pos()))
+			} else {
+				r.Check(spawned(cc.Args[2]), fnName(fn), "new-manifest-of-spawned@"+branchLabel(c), "a manifest written with an edit snapshots the version spawned from it", "newManifest(rec, x) with x not the spawned version", p.Pos(c.Pos()))
+			}
+		}
 	}
 	r.End()
 }
